@@ -395,6 +395,50 @@ def alphabet_rule(rep, mod):
              None if ok else 'base64 alphabet is %r' % g, fact=g)
 
 
+def ext_isalnum(interp, st, i, args):
+    """C-locale isalnum: non-zero exactly on 0-9 A-Z a-z.  Decided when the argument is known to lie inside one class or
+    outside all of them; otherwise the answer is unknown (and a clause that depends on it is not provable)"""
+    from absval import IntVal
+    a = args[0]
+    al = st.force_s(a) if isinstance(a, IntVal) else None
+    r = st.fresh_int(32, True, 'isalnum')
+    if al is not None:
+        inside = any(st.cons.entails_le(lo, al) and st.cons.entails_le(al, hi) for (lo, hi) in ((48, 57), (65, 90), (97, 122)))
+        outside = all(st.cons.entails_le(al, lo - 1) or st.cons.entails_le(hi + 1, al) for (lo, hi) in ((48, 57), (65, 90), (97, 122)))
+        if inside:
+            st.cons.add_le(1, r.s)
+        elif outside:
+            st.cons.add_eq(r.s, 0)
+    return [(st, r)]
+
+
+def accept_rule(rep, mod):
+    """R-B64ACCEPT: "decoders accept everything their encoders can produce" - the predicate that lets a character into
+    the decoder holds on each class of the RFC 4648 alphabet (whole class as an interval: a bound that is off by one
+    leaves the predicate undecided at the end of the interval and the clause unprovable), and it rejects the padding
+    character, on which the decoder has to stop"""
+    c = [f for f in mod.defined() if f.srcname == 'is_base64']
+    if len(c) != 1:
+        raise AnalysisBroken('is_base64 not found as a function (anchor changed)')
+    f = c[0]
+    odd = [i for i in f.all_insts() if (i.op in ('call', 'invoke') and i.callee != 'isalnum' and not (i.callee or '').startswith('llvm.dbg'))
+           or i.op == 'load']
+    if odd:
+        raise AnalysisBroken('is_base64 decides by %s at %s: only comparisons and isalnum() are understood'
+                             % (odd[0].op + (' ' + odd[0].callee if odd[0].callee else ''), odd[0].where()))
+    nm = f.params[0]['name'] or 'arg0'
+    posts = [dict(name='accepts-%s' % k, when=['%s >= %d' % (nm, lo), '%s <= %d' % (nm, hi)], then=['ret == 1'])
+             for (k, lo, hi) in (('A-Z', 65, 90), ('a-z', 97, 122), ('0-9', 48, 57), ('plus', 43, 43), ('slash', 47, 47))]
+    posts.append(dict(name='rejects-the-padding-character', when=['%s == 61' % nm], then=['ret == 0']))
+    it = Interp(mod, externals={'isalnum': ext_isalnum})
+    r = ContractRun(it, [])
+    r.run(f.name, FnSpec(post=posts), fn=f)
+    obs = summarize(it, r)
+    for o in obs:
+        o['function'] = 'igris::is_base64'
+    rep.add_absint('R-B64ACCEPT', obs)
+
+
 def run(rep, repo, tier):
     rep.explanation = (
         'hexascii: abstract interpretation proves half2hex/hex2half/hex2byte closed forms on their digit classes and '
@@ -402,7 +446,8 @@ def run(rep, repo, tier):
         'order of uintN_to_hex equals that of hex_to_uintN (most significant byte first, high nibble first). base64: the '
         'alphabet constant equals RFC 4648; the alphabet index of every emitted character (full group and both padded '
         'tails) and the regrouping of 4 sextets into 3 bytes are computed in the GF(2) bit-vector domain and must equal '
-        'the RFC 4648 bit slices; the url-safe variant applies inverse character maps and calls the matching codec.')
+        'the RFC 4648 bit slices; the url-safe variant applies inverse character maps and calls the matching codec; the '
+        'admission predicate of the decoder accepts each whole class of the alphabet and rejects the padding character.')
     rep.assumptions += ['little-endian target (the lane macros of access.h are selected by __BYTE_ORDER__)',
                         'base64 sextets are < 64 (only alphabet characters reach the regrouping)']
     # callees are folded into their callers (uint64_to_hex may be written as eight uint8_to_hex calls): every function of the
@@ -453,6 +498,8 @@ def run(rep, repo, tier):
     modbp = compile_ir(repo + '/igris/util/base64.cpp', repo, inline=keep_all_but_new_helpers(('is_base64',)))
     url_rule(rep, modbp)
     index_width_rule(rep, modbp)
+    accept_rule(rep, modbp)
+    rep.floor('R-B64ACCEPT:post', 6)
     rep.floor('R-HEXDIGIT:post', 12)
     rep.floor('R-LANES', 30)
     rep.floor('R-HEXBUF:bounds', 4)
